@@ -8,6 +8,8 @@ def run(ctx):
     if not getattr(ctx, "replay", None):
         from .. import g72x as _g72x
         _g72x.pregen(ctx)
+        from .. import codectab as _codectab     # NMS / GSM tables by execution -> Generated/NmsTables.lean, GsmTables.lean
+        _codectab.pregen(ctx)
     run_common(ctx, "C07", modules_for("C07"), stride=2 if q else 1, l1_scripts=250 if q else 2500)
     if not getattr(ctx, "replay", None):
         from .. import blockcamp
@@ -26,3 +28,5 @@ def run(ctx):
         small4.run_sds(ctx, found=bool(ctx.violations))
         from .. import adpcmenc       # IMA (WAV / W64 / AIFF layouts) and MS ADPCM encoders + write paths (lean/SfModel/AdpcmEnc.lean, AdpcmFile.lean)
         adpcmenc.run(ctx, "C07", 120 if q else 1200)
+        from .. import codecs20       # a table entry of the tree differs from the published one: look for an input that shows it
+        codecs20.search(ctx)
